@@ -200,6 +200,16 @@ pub enum BOp {
     /// (not enabled without one): 0 name, 1 member_name, 2 decorate Block, 3 member_decorate Offset, 4 decorate_string,
     /// 5 member_decorate_string, 6 entry_point interface id, 7 execution_mode_id operand
     MentionLastType(u8),
+    /// phi(RT, None, [(6, 7)]): a block instruction like any other for the Builder (it may open a block's instruction list)
+    Phi,
+    /// let p = id(); type_forward_pointer(p, Function): announces p without defining it
+    ForwardPointerFresh,
+    /// type_forward_pointer(x, Function) where x is the first id the base request of type method `site` mentions
+    ForwardPointerOfArg(usize),
+    /// type_struct([p]) (implicit id) where p is the id announced by the most recent OpTypeForwardPointer (not enabled without one)
+    StructOfForward,
+    /// type_pointer(None, Function, T) where T is the result id of the most recent declaration in types_global_values
+    PointerToLast,
 }
 
 /// names for NameAny / SelectByText: plain, prefixes of each other, multi-byte characters, mangled forms
@@ -488,6 +498,49 @@ pub fn replay(h: &[BOp]) -> Replay {
                 }
                 BOp::SelectByName(k) => ok = b.select_function_by_name(&format!("f{}", k)).is_ok(),
                 BOp::SelectByText(j) => ok = b.select_function_by_name(TEXTS[*j]).is_ok(),
+                BOp::Phi => ok = res_word!(b.phi(RT, None, vec![(6, 7)])),
+                BOp::ForwardPointerFresh => {
+                    let p = b.id();
+                    b.type_forward_pointer(p, spirv::StorageClass::Function);
+                    ret_id = Some(p);
+                    ok = true;
+                }
+                BOp::ForwardPointerOfArg(si) => {
+                    let site = &type_calls()[*si];
+                    let base = type_call_inst(site, &type_call_args(site, None, 0), None);
+                    let Some(x) = base.args.iter().find_map(|a| match a {
+                        Arg::IdRef(x) | Arg::IdScope(x) => Some(*x),
+                        _ => None,
+                    }) else {
+                        disabled = true;
+                        break 'steps;
+                    };
+                    b.type_forward_pointer(x, spirv::StorageClass::Function);
+                    ok = true;
+                }
+                BOp::StructOfForward => {
+                    let Some(p) = cur.secs[10].iter().rev().find(|i| i.name() == "TypeForwardPointer").and_then(|i| match i.args.first() {
+                        Some(Arg::IdRef(p)) => Some(*p),
+                        _ => None,
+                    }) else {
+                        disabled = true;
+                        break 'steps;
+                    };
+                    let id = b.type_struct(vec![p]);
+                    ret_id = Some(id);
+                    ok = true;
+                    expected_inst = Some(inst("TypeStruct", None, Some(id), vec![Arg::IdRef(p)]));
+                }
+                BOp::PointerToLast => {
+                    let Some(t) = cur.secs[10].iter().rev().find_map(|i| i.rid) else {
+                        disabled = true;
+                        break 'steps;
+                    };
+                    let id = b.type_pointer(None, spirv::StorageClass::Function, t);
+                    ret_id = Some(id);
+                    ok = true;
+                    expected_inst = Some(inst("TypePointer", None, Some(id), vec![Arg::Enum("StorageClass", spirv::StorageClass::Function as u32), Arg::IdRef(t)]));
+                }
                 BOp::NameAny(k, j) => {
                     let target = match k {
                         Some(k) => match cur.fns.get(*k).and_then(|f| f.def.as_ref()).and_then(|d| d.rid) {
@@ -718,7 +771,24 @@ pub fn replay(h: &[BOp]) -> Replay {
                     n.version = Some(0x0001_0400);
                     Pred::Ok { snap: n, sel, fresh: None }
                 }
-                BOp::TypeVoid | BOp::TypeCall(..) | BOp::TypeCallRef(..) | BOp::TypePointer(..) => {
+                BOp::Phi => {
+                    if !in_block {
+                        Pred::Fail
+                    } else {
+                        Pred::Ok { snap: append_block(&cur, inst("Phi", Some(RT), ret_id, vec![Arg::IdRef(6), Arg::IdRef(7)])), sel, fresh: ret_id }
+                    }
+                }
+                BOp::ForwardPointerFresh => Pred::Ok { snap: append_global(&cur, inst("TypeForwardPointer", None, None, vec![Arg::IdRef(ret_id.unwrap()), Arg::Enum("StorageClass", spirv::StorageClass::Function as u32)])), sel, fresh: ret_id },
+                BOp::ForwardPointerOfArg(si) => {
+                    let site = &type_calls()[*si];
+                    let base = type_call_inst(site, &type_call_args(site, None, 0), None);
+                    let x = base.args.iter().find_map(|a| match a {
+                        Arg::IdRef(x) | Arg::IdScope(x) => Some(*x),
+                        _ => None,
+                    }).unwrap();
+                    Pred::Ok { snap: append_global(&cur, inst("TypeForwardPointer", None, None, vec![Arg::IdRef(x), Arg::Enum("StorageClass", spirv::StorageClass::Function as u32)])), sel, fresh: None }
+                }
+                BOp::TypeVoid | BOp::TypeCall(..) | BOp::TypeCallRef(..) | BOp::TypePointer(..) | BOp::StructOfForward | BOp::PointerToLast => {
                     let want = expected_inst.clone().unwrap_or_else(|| inst("TypeVoid", None, ret_id, vec![]));
                     let equal_earlier: Vec<u32> = cur.secs[10].iter().filter(|d| d.rid.is_some() && d.opcode == want.opcode && d.args == want.args).map(|d| d.rid.unwrap()).collect();
                     if explicit {
